@@ -67,6 +67,10 @@ let rec gv_of strat_of_node = function
   | S.L [S.A "node"; x] -> if strat_of_node (S.int x) then GNodeR (nat x) else GNodeA (nat x)
   | S.L (S.A "list" :: xs) -> GList (List.map (gv_of strat_of_node) xs)
   | S.L (S.A "lres" :: xs) -> GLRes (List.map (gv_of strat_of_node) xs)
+  (* typed Go slices ([]string, []int, []bool): resolved element by element like a []interface{} *)
+  | S.L (S.A "tstrs" :: xs) -> GList (List.map (fun x -> GStr (z x)) xs)
+  | S.L (S.A "tints" :: xs) -> GList (List.map (fun x -> GInt (z x)) xs)
+  | S.L (S.A "tbools" :: xs) -> GList (List.map (fun x -> GBool (S.int x <> 0)) xs)
   | S.L (S.A "alist" :: xs) -> GAList (List.map (function S.A "fail" -> None | x -> Some (gv_of strat_of_node x)) xs)
   | S.L [S.A "other"; x] -> GOther (nat x)
   | x -> failwith ("exec: gv " ^ S.to_string x)
